@@ -15,7 +15,7 @@ def programs(seed, n, syms=gen.SYMS, kinds=("abelian", "fermionic"), tids=None):
         rng = gen.rng_for(seed, "construct", i)
         sym = syms[i % len(syms)]
         kind = kinds[(i // len(syms)) % len(kinds)]
-        rank = rng.randint(1, 3)
+        rank = rng.randint(1, 3) if rng.random() < 0.9 else 0     # (a scalar is an array too)
         dtype = rng.choice(["float64", "complex128"])
         # the reference tensor: every valid sector stored
         t = gen.rand_array(rng, sym, rank, kind, dtype=dtype, sparse=0.0, oddpos=3, maxd=2,
